@@ -207,12 +207,15 @@ pub struct LenCase {
     pub len: u32,
     /// the final byte (the padding count when P is set)
     pub last: u8,
+    /// every other body byte
+    #[serde(default)]
+    pub fill: u8,
 }
 
 impl LenCase {
     pub fn bytes(&self) -> Bytes {
         let len = self.len as usize;
-        let mut b = vec![0u8; len];
+        let mut b = vec![self.fill; len];
         let hdr = [0x80 | (self.p as u8) << 5 | (self.count & 31), self.pt, (self.lf >> 8) as u8, self.lf as u8];
         for (i, h) in hdr.iter().enumerate() {
             if i < len {
@@ -238,11 +241,12 @@ pub fn len_fields(tier: Tier) -> Vec<u16> {
         .collect()
 }
 
-pub const LEN_VARIANTS: u64 = 10;
+pub const LEN_VARIANTS: u64 = 11;
 
 /// variant 0: exactly framed; 1: exactly framed and padded (P, last byte 4); 2 and 3: the real length is that of
 /// the length field with one bit flipped (a lost or invented carry); 4, 5: one word longer / shorter; 6: exactly
-/// framed, P set, final byte 0; 7: the exact length plus 65536 words; 8: bit 8 of the length flipped; 9: its bytes swapped
+/// framed, P set, final byte 0; 7: the exact length plus 65536 words; 8: bit 8 of the length flipped; 9: its bytes swapped;
+/// 10: as 6 with every other body byte 4 (a padding count read at a wrong index looks legal)
 pub const LEN_PTS: [u8; 8] = [200, 201, 202, 203, 204, 205, 206, 207];
 
 /// index -> (length field, variant, packet type): every typed parser sees every length field in every variant
@@ -252,6 +256,7 @@ pub fn len_case(lfs: &[u16], i: u64) -> LenCase {
     let lf = lfs[(i / LEN_VARIANTS) as usize % lfs.len()];
     let v = i % LEN_VARIANTS;
     let words = lf as u32 + 1;
+    let fill = if v == 10 { 4 } else { 0 };
     let (len, p, last) = match v {
         0 => (4 * words, false, 0),
         1 => (4 * words, true, 4),
@@ -266,7 +271,7 @@ pub fn len_case(lfs: &[u16], i: u64) -> LenCase {
         9 => (4 * (lf.swap_bytes() as u32 + 1), false, 0),
         _ => (4 * words, true, 0),
     };
-    LenCase { pt, count: 0, p, lf, len, last }
+    LenCase { pt, count: 0, p, lf, len, last, fill }
 }
 
 pub(crate) fn c08_len_oracle(c: &LenCase, st: &mut Stats) -> Verdict {
